@@ -85,8 +85,8 @@ CLAIMED = {
    ref="DESIGN.md §4 C08"),
 
  "C07": dict(
-   text="FULL proof for the fractional transfer rule (C07_droop_psc_fractional): for every profile, candidate subset S, k, seat count, simultaneous or one-by-one mode, tiebreak setting and oracle value - if ballots solid for S weigh at least k thresholds (Droop), every finished count of the model elects at least min(k, |S|, m) members of S; corollary C07_irv_majority. Proved by an invariant over the count (psc_step / psc_loop / psc_final): recorded tallies are the tallies of the count state; weights stay non-negative; whoever the quota test elects holds a quota (both modes); a coalition loses at most one threshold per elected member and nothing to winners outside it; elected + hopeful members never drop below min(k,|S|) because with the coalition's quotas on its hopeful members the pigeonhole puts one of them at the threshold, so none can be eliminated; every quota-filled seat consumed a threshold, so m seats cannot be filled while the coalition still holds a quota (Droop bound). One explicit hypothesis hfpv (the scoring utility's initial first-place tallies are the initial count state's tallies - a decidable identity between two executable definitions) is evaluated by the driver on every correspondence case and reported as a disagreement if false. The random transfer rule is NOT covered by the theorem: it is decided on the implementation by the monitor (all candidate subsets S of every finished run, coalitions planted at exactly k*threshold and 1/10^6 below) and tied to the model by the per-round correspondence of C02.",
-   note="Trusted: Lean kernel + standard axioms; hypothesis hfpv checked per run, not proved; model fidelity as sampled (same per-round correspondence as C02); random.sample as oracle. PARTIAL: random_transfer (whole-ballot transfers) has no theorem - the coalition-weight lemma is proved for the fractional rule only.",
+   text="FULL proof for the fractional transfer rule (C07_droop_psc_fractional): for every profile, candidate subset S, k, seat count, simultaneous or one-by-one mode, tiebreak setting and oracle value - if ballots solid for S weigh at least k thresholds (Droop), every finished count of the model elects at least min(k, |S|, m) members of S; corollary C07_irv_majority. Proved by an invariant over the count (psc_step / psc_loop / psc_final): recorded tallies are the tallies of the count state; weights stay non-negative; whoever the quota test elects holds a quota (both modes); a coalition loses at most one threshold per elected member and nothing to winners outside it; elected + hopeful members never drop below min(k,|S|) because with the coalition's quotas on its hopeful members the pigeonhole puts one of them at the threshold, so none can be eliminated; every quota-filled seat consumed a threshold, so m seats cannot be filled while the coalition still holds a quota (Droop bound). The glue hypothesis hfpv (the scoring utility's initial first-place tallies are the initial count state's tallies) is itself a theorem for profiles of untied ranked ballots over declared candidates (fpv_link), so C07_droop_psc is unconditional for such profiles; the driver still evaluates the identity on every correspondence case. The random transfer rule is NOT covered by the theorem: it is decided on the implementation by the monitor (all candidate subsets S of every finished run, coalitions planted at exactly k*threshold and 1/10^6 below) and tied to the model by the per-round correspondence of C02.",
+   note="Trusted: Lean kernel + standard axioms; model fidelity as sampled (same per-round correspondence as C02); random.sample as oracle. PARTIAL: random_transfer (whole-ballot transfers) has no theorem - the coalition-weight lemma is proved for the fractional rule only.",
    ref="DESIGN.md §4 C07, §9"),
 }
 TECH = "Lean 4 kernel-checked theorems over a hand-written executable model + differential correspondence check of the model against /repo/src + independent Python monitors"
